@@ -13,7 +13,9 @@ before the reference that carries them).
                                      current text; a document that is not open has no cache entry — holds after every event list
                                      (any length, any number of documents), by induction
 * `queries_pure`                     hover / definition / documentSymbol / save never change the state
-* `close_drops_state`                after didClose no cache knows the document and every query about it answers `null`
+* `close_drops_state`                after didClose no cache knows the document and every query about it answers `null` (for every URI
+                                     spelling: `unq`, the percent-decoder two handlers apply, is arbitrary)
+* `close_keeps_others`               didClose of `u` leaves the text, caches and answers of every other URI alone (even of `unq u`)
 * `no_internal_error`                no handler outcome is an internal error (nothing reaches `error_logger`)
 * `lsp_refines_spec`                 refinement to "URI ↦ current text": after any history, the outputs of the next event are a function
                                      of the abstract view only — open/change publish exactly the current text's diagnostics, queries answer
@@ -212,22 +214,22 @@ theorem revalidate_ok (front : Front) (cfg : Uri) (hd : Dom front) (c : Uri) (s0
         exact ⟨t, ht, by rw [h.epoch]⟩
     · exact ih _ _ _ (fun k hk' => hk k (List.mem_cons_of_mem _ hk')) h
 
-theorem watchedLoop_ok (front : Front) (cfg : Uri) (hd : Dom front) (s0 : St) (cs : List Uri) (s : St)
+theorem watchedLoop_ok (front : Front) (cfg : Uri) (unq : Uri → Uri) (hd : Dom front) (s0 : St) (cs : List Uri) (s : St)
     (pubs : List (Uri × List Diag)) (errs : Nat) (h : LoopOk front s0 s pubs errs) :
-    LoopOk front s0 (watchedLoop front cfg cs s pubs errs).1 (watchedLoop front cfg cs s pubs errs).2.1
-      (watchedLoop front cfg cs s pubs errs).2.2 := by
+    LoopOk front s0 (watchedLoop front cfg unq cs s pubs errs).1 (watchedLoop front cfg unq cs s pubs errs).2.1
+      (watchedLoop front cfg unq cs s pubs errs).2.2 := by
   induction cs generalizing s pubs errs with
   | nil => exact h
   | cons c cs ih =>
     simp only [watchedLoop]
     apply ih
-    apply revalidate_ok front cfg hd c s0 s.depKeys s pubs errs _ h
+    apply revalidate_ok front cfg hd (unq c) s0 s.depKeys s pubs errs _ h
     intro k hk
     rw [← h.docs]; exact h.inv.2 k hk
 
 /-! ### every event preserves the invariant -/
 
-theorem step_inv (front : Front) (cfg : Uri) (hd : Dom front) (s : St) (ev : Ev) (h : Inv front s) : Inv front (step front cfg s ev).1 := by
+theorem step_inv (front : Front) (cfg : Uri) (unq : Uri → Uri) (hd : Dom front) (s : St) (ev : Ev) (h : Inv front s) : Inv front (step front cfg unq s ev).1 := by
   cases ev with
   | open_ u t =>
     simp only [step]
@@ -277,18 +279,18 @@ theorem step_inv (front : Front) (cfg : Uri) (hd : Dom front) (s : St) (ev : Ev)
   | symbols u hier => exact h
   | watched cs =>
     simp only [step]
-    exact (watchedLoop_ok front cfg hd s cs s [] 0 ⟨h, rfl, rfl, rfl, by simp⟩).inv
+    exact (watchedLoop_ok front cfg unq hd s cs s [] 0 ⟨h, rfl, rfl, rfl, by simp⟩).inv
   | disk =>
     simp only [step]
     exact ⟨fun x => ⟨fun t' ht' => (h.1 x).1 t' ht', fun hn => (h.1 x).2 hn⟩, h.2⟩
 
 /-- **The invariant holds after every history** — any length, any number of documents, any interleaving. -/
-theorem run_inv (front : Front) (cfg : Uri) (hd : Dom front) (es : List Ev) : Inv front (run front cfg es) := by
+theorem run_inv (front : Front) (cfg : Uri) (unq : Uri → Uri) (hd : Dom front) (es : List Ev) : Inv front (run front cfg unq es) := by
   unfold run
-  suffices ∀ s, Inv front s → Inv front (es.foldl (fun s e => (step front cfg s e).1) s) from this init (init_inv front)
+  suffices ∀ s, Inv front s → Inv front (es.foldl (fun s e => (step front cfg unq s e).1) s) from this init (init_inv front)
   induction es with
   | nil => intro s h; exact h
-  | cons e es ih => intro s h; exact ih _ (step_inv front cfg hd s e h)
+  | cons e es ih => intro s h; exact ih _ (step_inv front cfg unq hd s e h)
 
 /-! ### queries, close, errors -/
 
@@ -297,16 +299,16 @@ def Ev.isQuery : Ev → Bool
   | _ => false
 
 /-- Queries (and didSave) never change the state, and publish nothing. -/
-theorem queries_pure (front : Front) (cfg : Uri) (s : St) (ev : Ev) (hq : ev.isQuery = true) :
-    (step front cfg s ev).1 = s ∧ (step front cfg s ev).2.pubs = [] := by
+theorem queries_pure (front : Front) (cfg : Uri) (unq : Uri → Uri) (s : St) (ev : Ev) (hq : ev.isQuery = true) :
+    (step front cfg unq s ev).1 = s ∧ (step front cfg unq s ev).2.pubs = [] := by
   cases ev <;> simp [Ev.isQuery] at hq <;> exact ⟨rfl, rfl⟩
 
 theorem cell_eq (s : St) (u : Uri) (line col : Nat) : cell s u line col = (s.hoverC u).bind fun h => h.get (line + 1) col := by
   unfold cell; cases s.hoverC u <;> rfl
 
 /-- what the query handlers answer, given the invariant: exactly the cache-free specification -/
-theorem query_answer (front : Front) (cfg : Uri) (s : St) (h : Inv front s) (ev : Ev) (hq : ev.isQuery = true) :
-    (step front cfg s ev).2.answer = specAnswer front (view s) ev := by
+theorem query_answer (front : Front) (cfg : Uri) (unq : Uri → Uri) (s : St) (h : Inv front s) (ev : Ev) (hq : ev.isQuery = true) :
+    (step front cfg unq s ev).2.answer = specAnswer front (view s) ev := by
   cases ev with
   | hover u l c =>
     simp only [step, specAnswer, view, cell_eq]
@@ -333,13 +335,15 @@ theorem query_answer (front : Front) (cfg : Uri) (s : St) (h : Inv front s) (ev 
   | disk => simp [Ev.isQuery] at hq
 
 /-- **Close drops state**: after didClose of an open document none of the four caches knows the URI, it is no key of the
-    dependency cache, and hover / definition / documentSymbol about it answer `null`. -/
-theorem close_drops_state (front : Front) (cfg : Uri) (s : St) (u : Uri) (t : Text) (hdoc : s.docs u = some t) :
-    let s' := (step front cfg s (.close u)).1
+    dependency cache, and hover / definition / documentSymbol about it answer `null` — for *every* percent-decoder `unq`
+    (in particular for URIs with percent-encoded characters, where `unq u ≠ u`): the caches are popped with the URI as sent.
+    Only the other documents' dependency sets are compared with the decoded spelling. -/
+theorem close_drops_state (front : Front) (cfg : Uri) (unq : Uri → Uri) (s : St) (u : Uri) (t : Text) (hdoc : s.docs u = some t) :
+    let s' := (step front cfg unq s (.close u)).1
     s'.docs u = none ∧ s'.astC u = none ∧ s'.defC u = none ∧ s'.hoverC u = none ∧ s'.depC u = none ∧ u ∉ s'.depKeys
-    ∧ (∀ x deps, s'.depC x = some deps → u ∉ deps)
-    ∧ (∀ l c, (step front cfg s' (.hover u l c)).2.answer = .null ∧ (step front cfg s' (.definition u l c)).2.answer = .null)
-    ∧ (∀ hier, (step front cfg s' (.symbols u hier)).2.answer = .null) := by
+    ∧ (∀ x deps, s'.depC x = some deps → unq u ∉ deps)
+    ∧ (∀ l c, (step front cfg unq s' (.hover u l c)).2.answer = .null ∧ (step front cfg unq s' (.definition u l c)).2.answer = .null)
+    ∧ (∀ hier, (step front cfg unq s' (.symbols u hier)).2.answer = .null) := by
   simp only [step, hdoc]
   refine ⟨by simp [upd_same], by simp [upd_same], by simp [upd_same], by simp [upd_same], by simp, by simp, ?_, ?_, ?_⟩
   · intro x deps hx
@@ -357,9 +361,21 @@ theorem close_drops_state (front : Front) (cfg : Uri) (s : St) (u : Uri) (t : Te
   · intro hier
     simp [symbolsAnswer, upd_same]
 
+/-- **Close drops nothing else**: the caches and the text of every other URI `x ≠ u` are untouched — whatever `unq` does
+    (`unq u = x` is allowed: the URI of `a%20b.pydjinni` decodes to the URI of another open document, `a b.pydjinni`). -/
+theorem close_keeps_others (front : Front) (cfg : Uri) (unq : Uri → Uri) (s : St) (u x : Uri) (hx : x ≠ u) :
+    let s' := (step front cfg unq s (.close u)).1
+    s'.docs x = s.docs x ∧ s'.astC x = s.astC x ∧ s'.defC x = s.defC x ∧ s'.hoverC x = s.hoverC x
+    ∧ (∀ l c, (step front cfg unq s' (.hover x l c)).2.answer = (step front cfg unq s (.hover x l c)).2.answer)
+    ∧ (∀ hier, (step front cfg unq s' (.symbols x hier)).2.answer = (step front cfg unq s (.symbols x hier)).2.answer) := by
+  simp only [step]
+  cases hdoc : s.docs u with
+  | none => simp
+  | some t => simp [upd_other _ _ _ _ hx, cell, symbolsAnswer]
+
 /-- **No handler outcome is an internal error**: with the invariant (i.e. after any history), no event makes a handler raise. -/
-theorem no_internal_error (front : Front) (cfg : Uri) (hd : Dom front) (s : St) (h : Inv front s) (ev : Ev) :
-    (step front cfg s ev).2.errors = 0 := by
+theorem no_internal_error (front : Front) (cfg : Uri) (unq : Uri → Uri) (hd : Dom front) (s : St) (h : Inv front s) (ev : Ev) :
+    (step front cfg unq s ev).2.errors = 0 := by
   cases ev with
   | open_ u t =>
     simp only [step]
@@ -376,7 +392,7 @@ theorem no_internal_error (front : Front) (cfg : Uri) (hd : Dom front) (s : St) 
   | symbols u hier => rfl
   | watched cs =>
     simp only [step]
-    exact (watchedLoop_ok front cfg hd s cs s [] 0 ⟨h, rfl, rfl, rfl, by simp⟩).errs
+    exact (watchedLoop_ok front cfg unq hd s cs s [] 0 ⟨h, rfl, rfl, rfl, by simp⟩).errs
   | disk => rfl
 
 /-! ### refinement -/
@@ -411,13 +427,13 @@ def SpecStep (front : Front) (epoch : Nat) (v v' : Uri → Option (Text × Nat))
     open/change publish exactly `diagsOf (front (current text))` for that URI; hover, definition and documentSymbol answer what a
     server without caches would answer from the current text (`null` for a document that is not open); close, save and queries
     publish nothing; watched-files publications are the current texts' diagnostics; and no handler fails internally. -/
-theorem lsp_refines_spec (front : Front) (cfg : Uri) (hd : Dom front) (es : List Ev) (ev : Ev) :
-    SpecStep front (run front cfg es).epoch (view (run front cfg es)) (view (step front cfg (run front cfg es) ev).1) ev
-      (step front cfg (run front cfg es) ev).2
-    ∧ (step front cfg (run front cfg es) ev).2.errors = 0 := by
-  have hinv := run_inv front cfg hd es
-  refine ⟨?_, no_internal_error front cfg hd _ hinv ev⟩
-  generalize run front cfg es = s at hinv
+theorem lsp_refines_spec (front : Front) (cfg : Uri) (unq : Uri → Uri) (hd : Dom front) (es : List Ev) (ev : Ev) :
+    SpecStep front (run front cfg unq es).epoch (view (run front cfg unq es)) (view (step front cfg unq (run front cfg unq es) ev).1) ev
+      (step front cfg unq (run front cfg unq es) ev).2
+    ∧ (step front cfg unq (run front cfg unq es) ev).2.errors = 0 := by
+  have hinv := run_inv front cfg unq hd es
+  refine ⟨?_, no_internal_error front cfg unq hd _ hinv ev⟩
+  generalize run front cfg unq es = s at hinv
   cases ev with
   | open_ u t =>
     simp only [SpecStep, step]
@@ -445,12 +461,12 @@ theorem lsp_refines_spec (front : Front) (cfg : Uri) (hd : Dom front) (es : List
       · show (upd s.docs u none x).map _ = upd (view s) u none x
         rw [upd_other _ _ _ _ hx, upd_other _ _ _ _ hx]; rfl
   | save u => exact ⟨rfl, rfl, rfl⟩
-  | hover u l c => exact ⟨rfl, rfl, query_answer front cfg s hinv (.hover u l c) rfl⟩
-  | definition u l c => exact ⟨rfl, rfl, query_answer front cfg s hinv (.definition u l c) rfl⟩
-  | symbols u hier => exact ⟨rfl, rfl, query_answer front cfg s hinv (.symbols u hier) rfl⟩
+  | hover u l c => exact ⟨rfl, rfl, query_answer front cfg unq s hinv (.hover u l c) rfl⟩
+  | definition u l c => exact ⟨rfl, rfl, query_answer front cfg unq s hinv (.definition u l c) rfl⟩
+  | symbols u hier => exact ⟨rfl, rfl, query_answer front cfg unq s hinv (.symbols u hier) rfl⟩
   | watched cs =>
     simp only [SpecStep, step]
-    have hl := watchedLoop_ok front cfg hd s cs s [] 0 ⟨hinv, rfl, rfl, rfl, by simp⟩
+    have hl := watchedLoop_ok front cfg unq hd s cs s [] 0 ⟨hinv, rfl, rfl, rfl, by simp⟩
     refine ⟨fun p hp => ?_, fun x => ?_⟩
     · obtain ⟨t, ht, hpd⟩ := hl.pubs p hp
       exact ⟨t, s.valEpoch p.1, by simp [view, ht], hpd⟩
@@ -468,17 +484,17 @@ def frontCrashy : Front := fun _ _ t => if t = 0 then .errs [(true, r0)] [] [] [
     exception `validate()` does not handle — nothing is published, the error of the *previous* text stays (and the handler
     logged an internal error). This is what a bare `TypeResolvingException` (duplicate type) did before the repair. -/
 theorem crash_leaves_stale_diagnostics :
-    let s := run frontCrashy "cfg" [.open_ "u" 0, .change "u" 1]
+    let s := run frontCrashy "cfg" id [.open_ "u" 0, .change "u" 1]
     s.docs "u" = some 1 ∧ s.lastPub "u" = some [{ severity := 1, range := r0 }]
-    ∧ (step frontCrashy "cfg" (run frontCrashy "cfg" [.open_ "u" 0]) (.change "u" 1)).2.errors = 1
-    ∧ (step frontCrashy "cfg" (run frontCrashy "cfg" [.open_ "u" 0]) (.change "u" 1)).2.pubs = [] := by
+    ∧ (step frontCrashy "cfg" id (run frontCrashy "cfg" id [.open_ "u" 0]) (.change "u" 1)).2.errors = 1
+    ∧ (step frontCrashy "cfg" id (run frontCrashy "cfg" id [.open_ "u" 0]) (.change "u" 1)).2.pubs = [] := by
   decide
 
 /-- The pinned `hover` / `definition` handlers index `hover_cache[uri]`: for a document that is not open (never opened, or
     closed) that is a `KeyError` inside the handler. -/
-theorem hoverPinned_unopened_fails (front : Front) (cfg : Uri) (hd : Dom front) (es : List Ev) (u : Uri) (l c : Nat)
-    (h : (run front cfg es).docs u = none) : (hoverPinned (run front cfg es) u l c).errors = 1 := by
-  have := ((run_inv front cfg hd es).1 u).2 h
+theorem hoverPinned_unopened_fails (front : Front) (cfg : Uri) (unq : Uri → Uri) (hd : Dom front) (es : List Ev) (u : Uri) (l c : Nat)
+    (h : (run front cfg unq es).docs u = none) : (hoverPinned (run front cfg unq es) u l c).errors = 1 := by
+  have := ((run_inv front cfg unq hd es).1 u).2 h
   simp [hoverPinned, this.2.2.1]
 
 /-! ### non-vacuity: a front end inside the domain with references, imports and deprecation (compiled evaluation) -/
@@ -492,19 +508,32 @@ def frontGood : Front := fun _ u t =>
 
 #guard (hoverOf (frontGood 0 "u" 0)).isSome && (hoverOf (frontGood 0 "u" 1)).isSome
 -- boundaries of the span [18, 21): 17 no, 18 yes, 20 yes, 21 no
-#guard ((step frontGood "cfg" (run frontGood "cfg" [.open_ "u" 0]) (.hover "u" 1 17)).2.answer == .null)
-#guard ((step frontGood "cfg" (run frontGood "cfg" [.open_ "u" 0]) (.hover "u" 1 18)).2.answer == .hover "doc" { sl := 1, sc := 18, el := 1, ec := 21 })
-#guard ((step frontGood "cfg" (run frontGood "cfg" [.open_ "u" 0]) (.hover "u" 1 20)).2.answer == .hover "doc" { sl := 1, sc := 18, el := 1, ec := 21 })
-#guard ((step frontGood "cfg" (run frontGood "cfg" [.open_ "u" 0]) (.hover "u" 1 21)).2.answer == .null)
+#guard ((step frontGood "cfg" id (run frontGood "cfg" id [.open_ "u" 0]) (.hover "u" 1 17)).2.answer == .null)
+#guard ((step frontGood "cfg" id (run frontGood "cfg" id [.open_ "u" 0]) (.hover "u" 1 18)).2.answer == .hover "doc" { sl := 1, sc := 18, el := 1, ec := 21 })
+#guard ((step frontGood "cfg" id (run frontGood "cfg" id [.open_ "u" 0]) (.hover "u" 1 20)).2.answer == .hover "doc" { sl := 1, sc := 18, el := 1, ec := 21 })
+#guard ((step frontGood "cfg" id (run frontGood "cfg" id [.open_ "u" 0]) (.hover "u" 1 21)).2.answer == .null)
 -- the nested generic argument wins inside the outer reference's span; the outer one has no documentation
-#guard ((step frontGood "cfg" (run frontGood "cfg" [.open_ "u" 0]) (.definition "u" 1 32)).2.answer == .location "file:///lib" r0)
-#guard ((step frontGood "cfg" (run frontGood "cfg" [.open_ "u" 0]) (.hover "u" 1 27)).2.answer == .null)
+#guard ((step frontGood "cfg" id (run frontGood "cfg" id [.open_ "u" 0]) (.definition "u" 1 32)).2.answer == .location "file:///lib" r0)
+#guard ((step frontGood "cfg" id (run frontGood "cfg" id [.open_ "u" 0]) (.hover "u" 1 27)).2.answer == .null)
 -- two deprecation warnings (the two references to the deprecated type); after the change one error of this document (the foreign one is filtered)
-#guard ((step frontGood "cfg" init (.open_ "u" 0)).2.pubs.map (·.2.length)) == [2]
-#guard ((step frontGood "cfg" (run frontGood "cfg" [.open_ "u" 0]) (.change "u" 1)).2.pubs == [("u", [{ severity := 1, range := r0 }])])
+#guard ((step frontGood "cfg" id init (.open_ "u" 0)).2.pubs.map (·.2.length)) == [2]
+#guard ((step frontGood "cfg" id (run frontGood "cfg" id [.open_ "u" 0]) (.change "u" 1)).2.pubs == [("u", [{ severity := 1, range := r0 }])])
 -- a dependant is revalidated by a watched-files event for the file it depends on, nothing else is
-#guard ((step frontGood "cfg" (run frontGood "cfg" [.open_ "u" 0, .open_ "v" 1]) (.watched ["file:///lib"])).2.pubs.map (·.1)) == ["u"]
-#guard ((step frontGood "cfg" (run frontGood "cfg" [.open_ "u" 0, .open_ "v" 1]) (.watched ["cfg"])).2.pubs.map (·.1)) == ["u", "v"]
-#guard ((step frontGood "cfg" (run frontGood "cfg" [.open_ "u" 0, .close "u"]) (.symbols "u" true)).2.answer == .null)
+#guard ((step frontGood "cfg" id (run frontGood "cfg" id [.open_ "u" 0, .open_ "v" 1]) (.watched ["file:///lib"])).2.pubs.map (·.1)) == ["u"]
+#guard ((step frontGood "cfg" id (run frontGood "cfg" id [.open_ "u" 0, .open_ "v" 1]) (.watched ["cfg"])).2.pubs.map (·.1)) == ["u", "v"]
+#guard ((step frontGood "cfg" id (run frontGood "cfg" id [.open_ "u" 0, .close "u"]) (.symbols "u" true)).2.answer == .null)
+-- URIs with percent-encoded characters: a decoder that is not the identity (`a%2520b` ↦ `a%20b` ↦ `a b`)
+def unq1 : Uri → Uri := fun u => if u == "a%2520b" then "a%20b" else if u == "a%20b" then "a b" else if u == "file:///my%20lib" then "file:///my lib" else u
+-- closing `a%2520b` drops its own state and leaves the open document `a%20b` (the decoded spelling) alone
+#guard ((step frontGood "cfg" unq1 (run frontGood "cfg" unq1 [.open_ "a%20b" 0, .open_ "a%2520b" 0, .close "a%2520b"]) (.symbols "a%2520b" true)).2.answer == .null)
+#guard ((step frontGood "cfg" unq1 (run frontGood "cfg" unq1 [.open_ "a%20b" 0, .open_ "a%2520b" 0, .close "a%2520b"]) (.hover "a%2520b" 1 18)).2.answer == .null)
+#guard ((step frontGood "cfg" unq1 (run frontGood "cfg" unq1 [.open_ "a%20b" 0, .open_ "a%2520b" 0, .close "a%2520b"]) (.symbols "a%20b" true)).2.answer == .symbols ["sym"])
+#guard ((step frontGood "cfg" unq1 (run frontGood "cfg" unq1 [.open_ "a%20b" 0, .open_ "a%2520b" 0, .close "a%2520b"]) (.hover "a%20b" 1 18)).2.answer == .hover "doc" { sl := 1, sc := 18, el := 1, ec := 21 })
+-- the watched-files handler compares the *decoded* URI with the (encoded) members of the dependency sets: as the code stands,
+-- a change of a file whose URI has a percent-encoded character revalidates nobody
+def frontLib : Front := fun _ u _ => .ok [] [.mk true 2 18 21 { sl := 1, sc := 18, el := 1, ec := 21 }
+    (some { comment := none, deprecated := false, depFile := some "file:///my%20lib", loc := none }) []] [] []
+#guard ((step frontLib "cfg" id (run frontLib "cfg" id [.open_ "u" 0]) (.watched ["file:///my%20lib"])).2.pubs.map (·.1)) == ["u"]
+#guard ((step frontLib "cfg" unq1 (run frontLib "cfg" unq1 [.open_ "u" 0]) (.watched ["file:///my%20lib"])).2.pubs.map (·.1)) == []
 
 end Pydjinni.Sys.Lsp
